@@ -60,8 +60,8 @@ def step (fs : FullSt) (l : Line) : FullSt × String :=
     match str l "op" with
     | "reset" => ({}, "reset", "reset")
     | "issue" =>
-      let rt : Option Res.RTok := if str l "rt" != "" then some { token := str l "rt", client := str l "client", subject := str l "sub", access := str l "id" } else none
-      ((Res.step fs.atp fs.mod (.issue { id := str l "id", client := str l "client", subject := str l "sub", audience := list l "aud", refresh := str l "rt" } rt)).1,
+      let rt : Option Res.RTok := if str l "rt" != "" then some { token := str l "rt", client := str l "client", subject := str l "sub", access := str l "id", issuer := str l "iss" } else none
+      ((Res.step fs.atp fs.mod (.issue { id := str l "id", client := str l "client", subject := str l "sub", audience := list l "aud", refresh := str l "rt", issuer := str l "iss" } rt)).1,
        "issued", "issued")
     | "expire" => ((Res.step fs.atp fs.mod (.expire (if str l "kind" == "rt" then .rt (str l "id") else .at (str l "id")))).1, "expired", "expired")
     | "userinfo" =>
@@ -79,18 +79,19 @@ def step (fs : FullSt) (l : Line) : FullSt × String :=
       let (s', r) := if fs.router == .provider then Res.revokeRequest fs.atp e fs.mod (requestOf fs l now)
                      else Res.revoke fs.router fs.atp e fs.mod (modelCaller fs l now true) (str l "hint") raw
       (s', (match r with | .ok => "ok" | .refused => "refused"), (if nat l "o.status" == 200 then "ok" else "refused"))
-    | "endsession" => (if bool l "o.terminated" then fs.mod.TerminateSession (str l "sub") (str l "client") else fs.mod, "done", "done")
+    | "endsession" => (if bool l "o.terminated" then fs.mod.TerminateSession (str l "iss") (str l "sub") (str l "client") else fs.mod, "done", "done")
     | "exchange" =>
       (fs.mod, (if (Res.exchange fs.atp e fs.mod (str l "stype" == "refresh") raw).isSome then "accepted" else "refused"),
        (if bool l "o.success" then "accepted" else "refused"))
     | "refresh" =>
-      let (s', r) := Res.step fs.atp fs.mod (.refresh raw)
+      let (s', r) := Res.step fs.atp fs.mod (.refresh (str l "iss") raw)
       (s', (if r.isSome then "accepted" else "refused"), (if bool l "o.success" then "accepted" else "refused"))
     | _ => (fs.mod, "?", "?")
   let agree := modelS == obsS
   let fs' : FullSt :=
     if str l "op" == "reset" then
-      { mon := mon', mod := {}, atp := { accessTokenKeySet := parseKeySet l "ks." }, clients := Drv.Flow.parseClients l, router := if str l "router" == "legacy" then .legacy else .provider }
+      -- a request-derived issuer: the reference storage keeps the tenants apart (refstore MultiTenant)
+      { mon := mon', mod := { partitioned := str l "issmode" != "static" }, atp := { accessTokenKeySet := parseKeySet l "ks." }, clients := Drv.Flow.parseClients l, router := if str l "router" == "legacy" then .legacy else .provider }
     else { fs with mon := mon', mod := mod' }
   (fs', s!"case={str l "case"} class={cls l} model={modelS} observed={obsS} monitor={showMon v} agree={if agree then 1 else 0}")
 
